@@ -25,6 +25,7 @@ from ..vloop import VLoop
 from .c14 import SHM
 
 ID = 'C17'
+SOME_REST = '*'  # marks a stored checkpoint of which any rest of the run may be left
 
 RAN: List[Tuple[Any, str]] = []  # (pid, step) appended by the steps of the processes below
 CONSTRUCTED: List[Any] = []
@@ -311,12 +312,15 @@ class System:
             if new_ran != full:
                 fail('launch:not-run-exactly-once', {'ran': new_ran, 'want': full}, cls=op[1])
             want_keys = {(pid, None): 'created'} if op[2] else {}
-            if set(new_keys) != set(want_keys):  # (which state the stored checkpoint shows in the end is not laid down)
+            # ("persisting it first": what the store shows once the launch is over - the first checkpoint, a later one,
+            #  none any more - is not laid down; nothing may be stored for a launch that was not to be persisted)
+            if not set(new_keys) <= set(want_keys):
                 fail('launch:persistence', {'got': sorted(map(repr, new_keys.items())), 'want': sorted(map(repr, want_keys.items()))},
                      persist=op[2])
-            if op[2]:
+            if op[2] and (pid, None) in new_keys:
                 stored_state = new_keys.get((pid, None), 'created')
-                self.stored[(pid, None)] = ','.join(FULL_TRACE[op[1]]) if stored_state == 'created' else ''
+                # 'created': everything is still to run; otherwise any rest of the run (a checkpoint kept current)
+                self.stored[(pid, None)] = ','.join(FULL_TRACE[op[1]]) if stored_state == 'created' else SOME_REST + ','.join(FULL_TRACE[op[1]])
                 if op[1] in FAILS:
                     self.failing.add((pid, None))
             if op[3]:  # nowait
@@ -344,8 +348,14 @@ class System:
                 if new_ran or new_constructed:
                     fail('continue:absent-checkpoint-had-effects', {'ran': new_ran, 'constructed': new_constructed})
             else:
-                want = [(key[0], s) for s in remaining.split(',') if s]
-                if new_ran != want:
+                some_rest = remaining.startswith(SOME_REST)
+                want = [(key[0], s) for s in remaining[len(SOME_REST) if some_rest else 0:].split(',') if s]
+                if some_rest:
+                    ok = any(new_ran == want[i:] for i in range(len(want) + 1))
+                    self.stored[key] = SOME_REST  # (whatever was left has run now)
+                else:
+                    ok = new_ran == want
+                if not ok:
                     fail('continue:does-not-resume-the-checkpoint', {'ran': new_ran, 'want': want}, tag=repr(key[1]))
                 cls_name = 'fail' if self._is_failing(key) else None
                 if nowait:
@@ -383,22 +393,18 @@ class System:
         new_ran = RAN[len(ran_before):]
         new_keys = {k: v for k, v in self.persisted_keys().items() if k not in keys_before}
         if self.persister is None:
+            # (how execute_process is put together from launcher tasks - create + continue, which needs a persister, or a
+            #  plain launch - is not part of the statement: either it is refused without having run anything, or it runs)
             exc = fut.exception() if fut.done() and not fut.cancelled() else None
-            rejected = isinstance(exc, communications.TaskRejected) or any(
-                'TaskRejected' in base.__name__ for base in type(exc).__mro__) or 'TaskRejected' in repr(exc)
-            if exc is None or not rejected:
-                fail('impossible-task-not-rejected', repr(fut))
-            if new_ran:  # (merely constructing an instance before refusing is not judged)
-                fail('rejected-task-had-effects', {'ran': new_ran})
-            return bad
+            if exc is not None and not new_ran:
+                return bad  # refused, and nothing ran
         self.pids[-1] = pid
         full = [(pid, s) for s in FULL_TRACE[op[1]]]
         if new_ran != full:
             fail('execute:not-run-exactly-once', {'ran': new_ran, 'want': full}, cls=op[1])
-        if (pid, None) not in new_keys:
-            fail('execute:not-persisted-first', sorted(map(repr, new_keys)))
-        else:
-            self.stored[(pid, None)] = ','.join(FULL_TRACE[op[1]])
+        if (pid, None) in new_keys:
+            self.stored[(pid, None)] = SOME_REST + ','.join(FULL_TRACE[op[1]]) if new_keys[(pid, None)] != 'created' \
+                else ','.join(FULL_TRACE[op[1]])
             if op[1] in FAILS:
                 self.failing.add((pid, None))
         if not fut.done():
